@@ -70,13 +70,20 @@ func FindGrouping(n Node, name string, seen map[string]bool) *Grouping {
 				if pname == name || i.Module == nil {
 					continue
 				}
+				// What is left is a name of that module, not a
+				// reference to be read with its prefixes in turn.
+				if strings.Contains(pname, ":") {
+					continue
+				}
 				if g := FindGrouping(i.Module, pname, seen); g != nil {
 					return g
 				}
 			}
 		}
+		// A name that still has a prefix is one of another module: the
+		// prefixes of an included submodule give it no meaning.
 		v = e.FieldByName("Include")
-		if v.IsValid() {
+		if v.IsValid() && !strings.Contains(name, ":") {
 			for _, i := range v.Interface().([]*Include) {
 				if i.Module == nil {
 					continue
